@@ -19,6 +19,7 @@ FEAT = z3.DeclareSort("Feat")
 DFN = z3.Function("DFN", FEAT, FEAT, REAL)
 PRE = z3.Function("PRE", INT, INT, REAL)
 EXP = z3.Function("EXP", REAL, REAL)
+FDIM = z3.Function("FDIM", FEAT, INT)      # length of a feature vector (>= 1)
 
 _ids = itertools.count()
 
@@ -236,7 +237,7 @@ def merge_states(c, a, b, base_pc_len):
         s.pc.append(z3.Implies(c, z3.And(*ea) if len(ea) > 1 else ea[0]))
     if eb:
         s.pc.append(z3.Implies(z3.Not(c), z3.And(*eb) if len(eb) > 1 else eb[0]))
-    for name in set(a.locals) | set(b.locals):
+    for name in sorted(set(a.locals) | set(b.locals)):
         va = a.locals.get(name, UNBOUND)
         vb = b.locals.get(name, UNBOUND)
         da = a.defined.get(name, True) if va is not UNBOUND else False
@@ -248,23 +249,19 @@ def merge_states(c, a, b, base_pc_len):
         elif vb is UNBOUND:
             s.locals[name] = va
         else:
-            try:
-                s.locals[name] = merge_values(c, va, vb)
-            except Unsupported:
-                # a temp of incompatible kinds on the two branches: unusable afterwards
-                continue
+            s.locals[name] = merge_values(c, va, vb)
         if da is True and db is True:
             pass
         else:
             s.defined[name] = L.ite(c, L.to_z3_bool(da), L.to_z3_bool(db))
-    for oid in set(a.heap) | set(b.heap):
+    for oid in sorted(set(a.heap) | set(b.heap)):
         fa = a.heap.get(oid)
         fb = b.heap.get(oid)
         if fa is None or fb is None:
             s.heap[oid] = dict(fa or fb)
             continue
         d = {}
-        for f in set(fa) | set(fb):
+        for f in sorted(set(fa) | set(fb)):
             if f in fa and f in fb:
                 d[f] = merge_values(c, fa[f], fb[f])
             else:
@@ -321,6 +318,8 @@ class ObjView:
         fields = self._st.heap[self._ref.oid]
         if f == "nodes" and "nodes.len" in fields:
             return NodeListView(self._ex, self._st, self._ref.oid)
+        if f == "n_nodes" and "nodes.len" in fields:
+            return fields["nodes.len"]
         if f in fields:
             return wrap(self._ex, self._st, fields[f])
         if f == "n_nodes" and "nodes.len" in fields:
@@ -458,7 +457,7 @@ class Exec:
         return ObjRef(oid, cls)
 
     def fresh_field(self, st, prefix, f, ty):
-        if ty in ("int", "real", "bool"):
+        if ty in ("int", "real", "bool", "feat"):
             return {f: fresh(prefix, sort_of(ty))}
         if ty == "str":
             return {f: fresh(prefix, INT)}
@@ -564,6 +563,9 @@ class Exec:
         for k, v in self.config.items():
             # configuration constraints, e.g. policy fixed to 'min'
             path = k.split(".")
+            if len(path) == 1 and v is None:
+                st.locals[k] = None
+                continue
             val = self.read_path(st, path)
             st.assume(L.eq(val, v))
         self.old = st.copy()
@@ -824,8 +826,11 @@ class Exec:
                        for x in ast.walk(y))
         if len(na) == 1 and len(nb) == 1 and not has_loop:
             # drop the branch condition itself from the extras (it is re-expressed by the implication)
-            m = merge_states(cond, na[0][0], nb[0][0], base_len)
-            return rest + [(m, "next", None)]
+            try:
+                m = merge_states(cond, na[0][0], nb[0][0], base_len)
+                return rest + [(m, "next", None)]
+            except Unsupported:
+                pass   # values that cannot be merged (distinct fresh objects): keep the two paths apart
         return rest + na + nb
 
     # ---------------- loops
@@ -891,41 +896,56 @@ class Exec:
                 return [("range", L.conj(L.ge(lo, k), L.disj(L.ge(k, hi), L.conj(L.gt(hi, lo), L.eq(k, lo)))))]
             return self.run_loop(st, stmt, li, spec, head=head, cond_fn=cond, body=stmt.body, advance=adv,
                                  auto_inv=auto, extra_mod=[cname, tgt.id])
-        # iteration over a (live) list, optionally zip of two arrays
-        cname = "it!%d" % li
+        # iteration over a (live) list / node list, optionally through zip and/or enumerate
+        cname = "loop%d_k" % li
         st.locals[cname] = 0
-        if isinstance(it, ast.Call) and isinstance(it.func, ast.Name) and it.func.id == "zip":
-            seq_exprs = it.args
-            if not isinstance(tgt, ast.Tuple) or len(tgt.elts) != len(seq_exprs):
+        enum_name = None
+        it2, tgt2 = it, tgt
+        if isinstance(it, ast.Call) and isinstance(it.func, ast.Name) and it.func.id == "enumerate" and len(it.args) == 1:
+            if not isinstance(tgt, ast.Tuple) or len(tgt.elts) != 2 or not isinstance(tgt.elts[0], ast.Name):
+                raise Unsupported("enumerate target")
+            enum_name = tgt.elts[0].id
+            it2, tgt2 = it.args[0], tgt.elts[1]
+        if isinstance(it2, ast.Call) and isinstance(it2.func, ast.Name) and it2.func.id == "zip":
+            seq_exprs = it2.args
+            if not isinstance(tgt2, ast.Tuple) or len(tgt2.elts) != len(seq_exprs) \
+                    or not all(isinstance(t, ast.Name) for t in tgt2.elts):
                 raise Unsupported("zip target")
-            tnames = [t.id for t in tgt.elts]
+            tnames = [t.id for t in tgt2.elts]
         else:
-            seq_exprs = [it]
-            if not isinstance(tgt, ast.Name):
+            seq_exprs = [it2]
+            if not isinstance(tgt2, ast.Name):
                 raise Unsupported("for target")
-            tnames = [tgt.id]
+            tnames = [tgt2.id]
 
         def seqs(s):
             vs = [self.eval(s, e) for e in seq_exprs]
+            out = []
             for x in vs:
-                if not isinstance(x, SList):
+                if isinstance(x, SList):
+                    out.append((x.length, (lambda k, x=x: x[k])))
+                elif isinstance(x, NodeList):
+                    out.append((s.heap[x.oid]["nodes.len"], (lambda k, x=x: NodeRef(x.oid, L.lift(k, INT)))))
+                else:
                     raise Unsupported("iteration over non-list at line %d" % stmt.lineno)
-            return vs
+            return out
 
         def cond2(s, cname=cname):
             k = s.locals[cname]
-            return L.conj(*[L.lt(k, x.length) for x in seqs(s)])
+            return L.conj(*[L.lt(k, n) for (n, _) in seqs(s)])
 
         def head2(s, cname=cname):
             k = s.locals[cname]
-            for nm, x in zip(tnames, seqs(s)):
-                s.locals[nm] = x[k]
-            s.locals[cname] = k + 1 if L.is_z3(k) else k + 1
+            for nm, (n, get) in zip(tnames, seqs(s)):
+                s.locals[nm] = get(k)
+            if enum_name:
+                s.locals[enum_name] = k
+            s.locals[cname] = k + 1
 
         def auto2(s, cname=cname):
             return [("range", L.le(0, s.locals[cname]))]
         return self.run_loop(st, stmt, li, spec, head=head2, cond_fn=cond2, body=stmt.body, advance=None,
-                             auto_inv=auto2, extra_mod=[cname] + tnames)
+                             auto_inv=auto2, extra_mod=[cname] + tnames + ([enum_name] if enum_name else []))
 
     def run_loop(self, st, stmt, li, spec, head=None, cond_expr=None, cond_fn=None, body=None, advance=None,
                  auto_inv=None, extra_mod=()):
@@ -1153,6 +1173,11 @@ class Exec:
                 if isinstance(b, tuple) and b[0] == "nodefield":
                     heap.add((b[1], "nodes." + b[2], "struct"))
                     return
+                if isinstance(b, tuple) and b[0] == "nodelist" and f.attr == "append":
+                    for ff in st.heap[b[1]]:
+                        if ff.startswith("nodes"):
+                            heap.add((b[1], ff, "struct"))
+                    return
                 if isinstance(b, ObjRef):
                     pass  # a method called `remove`/`insert` on an object: falls through to contracts
                 elif f.attr in ("append", "insert", "fill"):
@@ -1264,6 +1289,11 @@ class Exec:
     def set_attr(self, st, base, attr, val, stmt):
         if isinstance(base, ObjRef):
             if attr.startswith("_"):
+                if SCHEMAS.get(base.cls, {}).get(attr[1:]) == "nodes":
+                    if isinstance(val, SList) and isinstance(val.length, int) and val.length == 0:
+                        st.heap[base.oid]["nodes.len"] = 0     # self.nodes = []
+                        return
+                    raise Unsupported("assignment of a non-empty list to the node list")
                 st.heap[base.oid][attr[1:]] = val
                 return
             owner, setter = self.repo.find_setter(base.cls, attr)
@@ -1365,6 +1395,19 @@ class Exec:
         return ("pylist", [self.eval(st, x) for x in e.elts])
 
     def expr_ListComp(self, st, e):
+        # [x.attr for x in <node list>]
+        if len(e.generators) == 1 and not e.generators[0].ifs and isinstance(e.generators[0].target, ast.Name) \
+                and isinstance(e.elt, ast.Attribute) and isinstance(e.elt.value, ast.Name) \
+                and e.elt.value.id == e.generators[0].target.id:
+            it = self.eval(st, e.generators[0].iter)
+            if isinstance(it, NodeList):
+                f = e.elt.attr
+                owner, getter = self.repo.find_getter("Node", f)
+                if getter is not None and not (len(strip_docstring(getter)) == 1 and
+                                               ast.unparse(strip_docstring(getter)[0]) == "return self._%s" % f):
+                    raise Unsupported("node getter %s is not a plain field read" % f)
+                nty = SCHEMAS["Node"][f]
+                return SList(st.heap[it.oid]["nodes." + f], st.heap[it.oid]["nodes.len"], nty)
         # [const for _ in range(n)]
         if len(e.generators) == 1 and not e.generators[0].ifs:
             g = e.generators[0]
@@ -1425,6 +1468,10 @@ class Exec:
                 return BoundMethod(base, attr)
             if attr == "shape":
                 return (base.length,)
+        if L.is_z3(base) and base.sort() == FEAT and attr == "shape":
+            d = FDIM(base)
+            st.assume(d >= 1)
+            return (d,)
         if isinstance(base, NodeList):
             if attr == "append":
                 return BoundMethod(base, attr)
@@ -1690,7 +1737,19 @@ class Exec:
             if isinstance(base, SList):
                 return self.list_method(st, f, base, e)
             if isinstance(base, NodeList) and f.attr == "append":
-                raise Unsupported("node list append (handled by trusted construction contracts)")
+                arg = self.eval(st, e.args[0])
+                if not (isinstance(arg, ObjRef) and arg.cls == "Node"):
+                    raise Unsupported("append of a non-Node to the node list")
+                if arg.oid not in st.fresh_objs:
+                    raise Unsupported("append of a Node that was not constructed in this function "
+                                      "(the struct-of-arrays view needs pairwise distinct nodes)")
+                st.fresh_objs.discard(arg.oid)    # a node object may be appended once
+                fields = st.heap[base.oid]
+                n = fields["nodes.len"]
+                for nf in SCHEMAS["Node"]:
+                    self.node_set(st, base.oid, L.lift(n, INT), nf, st.heap[arg.oid][nf])
+                fields["nodes.len"] = n + 1
+                return None
             if L.is_z3(base) and f.attr == "item":
                 return base
             if isinstance(base, (int, float)) and f.attr == "item":
@@ -1719,6 +1778,8 @@ class Exec:
             kinds = {"float"}
         elif isinstance(v, SList):
             kinds = {"list"}
+        elif L.is_z3(v) and v.sort() == FEAT:
+            kinds = {"ndarray"}
         elif isinstance(v, str):
             kinds = {"str"}
         elif isinstance(v, ObjRef):
@@ -1766,9 +1827,14 @@ class Exec:
             return EXP(L.realval(args[0]))
         if full == "numpy.zeros":
             n = args[0]
-            ty = "real"
-            # sidecar type hints for arrays that hold small integers exactly
-            return SList(z3.K(INT, z3.RealVal(0)), n, ty)
+            dt = [k for k in e.keywords if k.arg == "dtype"]
+            if dt and ast.unparse(dt[0].value) == "int":
+                return SList(z3.K(INT, z3.IntVal(0)), n, "int")
+            if dt:
+                raise Unsupported("np.zeros dtype")
+            return SList(z3.K(INT, z3.RealVal(0)), n, "real")
+        if full == "numpy.asarray":
+            return args[0]
         if full == "time.time":
             return fresh("time", REAL)
         if full in REGISTRY:
@@ -1783,10 +1849,10 @@ class Exec:
         st.fresh_objs.add(ref.oid)
         args = [self.eval(st, a) for a in e.args]
         kwargs = {k.arg: self.eval(st, k.value) for k in e.keywords}
-        if q in REGISTRY:
+        if q in REGISTRY and not REGISTRY[q].inline:
             self.contract_call(st, q, ref, args, kwargs, e, ctor=True)
         else:
-            raise Unsupported("constructor of %s has no contract" % cls)
+            self.inline_call(st, m, owner, [ref] + args, e, kwargs=kwargs, what="ctor")
         return ref
 
     def bind_args(self, fn, args, kwargs, skip_self=False):
